@@ -2,19 +2,26 @@
 
 A  TLC on Svs: nodes {self,n1,n2}, sequence numbers 0..MaxSeq, *every* received packet over the
    bound (all partial vectors, over-claiming, entries without node id / without sequence number
-   in both encoding orders, undecodable Interests), Publish bursts, TimerFire, Tick, event
+   in both encoding orders, vectors naming a node twice with different sequence numbers, undecodable
+   Interests), Publish bursts, TimerFire, Tick, event
    sequences of ANY length (the state space is finite, so no event bound is needed; this subsumes
    the "up to 5/7 events" of DESIGN 6). Mode "open" (what C18 leaves open is nondeterministic)
    and Mode "impl" (open choices resolved as sync.py does). All properties are action properties;
    vacuity = every action taken + every witness transition kind seen. The two named deviations
-   must each be *caught* by the properties (spec-level sensitivity).
+   must each be *caught* by the properties (spec-level sensitivity). One more run keeps the history
+   variable mem (the decodable packet most recently ignored / accepted): the same vector again, after
+   the state it is judged against has changed (witnesses AgainAccepted / AgainOutdated).
 B  the Mode "impl" state graph (TLC dump), with both deviations enabled as alternative edges, is
    covered on the fly on the real SvsInst: every stimulus (edge label minus the choice
    parameter) enabled in a graph state is applied to the instance in that state; the projection
    of the instance selects the successor edge(s). Only deviation edges match -> finding; no
    edge matches -> the recorded execution is judged by SvsTrace in Mode "open" (so that only
-   C18, not sync.py's present choices, can reject it).
-C  random histories (5 nodes, ~100 events, sequence numbers within 20 of a base of 0, 250 or 65530)
+   C18, not sync.py's present choices, can reject it). The graph has no memory of packets; the walk
+   adds it: every over-claiming vector that was ignored is delivered again, byte for byte, after
+   publications have made it acceptable (Cover.forced).
+C  random histories (5 nodes, ~100 events, sequence numbers within 20 of a base of 0, 250 or 65530;
+   up to three peers that repeat their vector byte for byte until they have a new one - whatever
+   became of it the first time and whatever was published since; vectors naming nodes more than once)
    recorded from the real instance and judged by SvsTrace: pass 1 deviations off, pass 2 (rejected
    ones) deviations on. Each history runs in a process with two more instances: a sibling of another
    sync group that has state before the instance is created and whose events interleave (instance
@@ -108,7 +115,7 @@ def consts(nodes, maxseq, packets, mode, dev, maxt, init=(0,), burst=2, sup=1, s
 # ------------------------------------------------------------------ stage A
 
 def stage_a(ctx):
-    w = ctx.pick(4, 16)
+    w = int(os.environ.get('VERIF_WORKERS', 0)) or ctx.pick(4, 16)
     pk2 = ctx.pick('PacketsReplay', 'PacketsFull')
     runs = [('open', pk2, 2, 1, (0,), NODES3, False), ('impl', pk2, 2, 10, (0,), NODES3, False)]
     if not ctx.quick:
@@ -578,6 +585,8 @@ def stage_b(ctx):
                                               'stimuli': cov.n_stimuli, 'paths': cov.paths, 'steps': cov.steps,
                                               'attempted': len(cov.attempted), 'not_reached': left,
                                               'edges_taken': len(cov.covered)})
+        if not cov.again_done and not cov.suspects and not cov.init_bad:
+            raise tlc.MachineryError('vacuous: no ignored over-claiming vector was delivered again in stage B')
         if bgs:
             ctx.note('B: background exceptions in the loop (not judged by C18): %s' % sorted(set(bgs))[:3])
         if cov.init_bad:
@@ -602,10 +611,10 @@ def _validate(ctx, recs, idx, nodes, dev, name, maxseq, env=None, count=True):
             f.write(json.dumps(r) + '\n')
     cfg = os.path.join(tlc.BUILD, 'SvsTrace_%d_%s.cfg' % (len(nodes), 'dev' if dev else 'pure'))
     tlc.write_cfg(cfg, spec='TSpec',
-                  constants=consts(nodes, maxseq, '{}', 'open', dev, 64, burst=3, hint=True),
+                  constants=consts(nodes, maxseq, '{}', 'open', dev, 64, burst=3, hint=True, remember=True),
                   invariants=['OwnEntry', 'SteadyForgets'],
                   properties=['Monotone', 'OverclaimIgnored', 'PublishEmitsFullVector', 'EmitsOnlyLocal', 'HeardIsMerge',
-                              'OutdatedStartsSuppression', 'CallbackPublishEmits'],
+                              'OutdatedStartsSuppression', 'CallbackPublishEmits', 'Witnesses'],
                   constraints=['Mark'], postcondition='Post', view='TView')
     r, rejected = tlc.validate_traces('SvsTrace', cfg, tf, env=env, tag=name)
     if count:
@@ -623,6 +632,8 @@ def judge(ctx, recs, nodes, sup, sync, rstep, name, maxseq=70000, report=True, o
     out = []
     LAST_JUDGE['unexplained'] = 0
     r1, rej1 = _validate(ctx, recs, list(range(len(recs))), nodes, (), name, maxseq)
+    # kinds of transitions (Svs!Witnesses) that occur in the recorded executions
+    LAST_JUDGE['witnessed'] = set(re.findall(r'<<"WITNESS", "(\w+)">>', r1.out))
     if r1.violated:
         out.append({'trace': 0, 'at': 0, 'dev': False, 'sig': 'C18/SvsInst/trace-property/%s' % r1.violated,
                     'what': 'property %s violated on a recorded execution' % r1.violated, 'obj': {'errtrace': r1.errtrace}})
@@ -736,18 +747,41 @@ def random_packet(rng, nodes, local, selfseq, base=0):
                                                'seq': rng.choice([NOSEQ, rng.randint(0, top)])})
     elif x < 0.24 and es:                          # entry without sequence number
         es[rng.randrange(len(es))]['seq'] = NOSEQ
+    if rng.random() < 0.12:                        # a node named more than once (own node: 1 in 3), values around the local one
+        for _ in range(rng.choice([1, 1, 2])):
+            n = me if rng.random() < 0.34 else rng.choice([e['id'] for e in es if e['id'] not in (NOID, ROOTID)] or [me])
+            cur = selfseq if n == me else local[n]
+            es.append({'id': n, 'seq': min(max(0, cur + rng.randint(-2, 2)), top)})
     rng.shuffle(es)
     return {'k': 'sv', 'es': es}
 
 
-def random_event(rng, nodes, cur, njit, busy, timed=True, base=0):
+def heard_packet(rng, nodes, cur, base, slots):
+    """the next vector heard. slots (None: no such peers) holds the vectors of up to three peers: a peer repeats its
+    vector byte for byte - whatever became of it the first time, and whatever the node has published since -
+    until it has a new one"""
+    if slots and rng.random() < 0.3:
+        return rng.choice(slots)
+    p = random_packet(rng, nodes, cur['local'], cur['seq'], base)
+    if slots is not None and p['k'] == 'sv':
+        if len(slots) < 3:
+            slots.append(p)
+        else:
+            slots[rng.randrange(3)] = p
+    return p
+
+
+def random_event(rng, nodes, cur, njit, busy, timed=True, base=0, slots=None):
     x = rng.random()
     j = rng.randrange(njit)
     top = base + MAXSEQ_C
     if x < busy or (not timed and x < 0.75):
-        return {'a': 'RecvSV', 'p': random_packet(rng, nodes, cur['local'], cur['seq'], base), 'j': j,
+        return {'a': 'RecvSV', 'p': heard_packet(rng, nodes, cur, base, slots), 'j': j,
                 'r': rng.choice([0, 0, 0, 1, 1, 2]) if cur['seq'] + 2 <= top else 0}
-    if (x < busy + 0.08 or not timed) and cur['seq'] < top:
+    # a node that hears a peer claim more of its data than it has produced (it restarted from an older
+    # sequence number) tends to publish: catching up
+    behind = any(e['id'] == nodes[0] and e['seq'] > cur['seq'] for p in slots or () for e in p['es'])
+    if (x < busy + (0.2 if behind else 0.08) or not timed) and cur['seq'] < top:
         return {'a': 'Publish', 'n': min(rng.choice([1, 1, 1, 2, 3]), top - cur['seq']), 'j': j}
     if not timed:
         return {'a': 'RecvSV', 'p': random_packet(rng, nodes, cur['local'], cur['seq'], base), 'j': j, 'r': 0}
@@ -772,11 +806,12 @@ def record_random(rng, nodes, n_events, sup, sync, rstep, njit):
             sib = pr.step('first', random_event(rng, nodes, sib, njit, 0.0, timed=False, base=base))
         cur = pr.start_main()
         busy = rng.choice([0.35, 0.5, 0.7])        # how chatty the neighbours are
+        slots = []
         while len(pr.recs['main']['ev']) < n_events:
             if rng.random() < 0.06:
                 sib = pr.step('first', random_event(rng, nodes, sib, njit, 0.0, timed=False, base=base))
             else:
-                cur = pr.step('main', random_event(rng, nodes, cur, njit, busy, base=base))
+                cur = pr.step('main', random_event(rng, nodes, cur, njit, busy, base=base, slots=slots))
     finally:
         pr.close()
     return pr
@@ -805,8 +840,10 @@ def stage_c(ctx):
                 'events': [{k: v for k, v in e.items() if k != 'post'} for e in recs[0]['ev'][:10]]})
     batch = 500
     total = {'dev': 0, 'rej': 0}
+    witnessed = set()
     for b in range(0, len(recs), batch):
         fnd = judge(ctx, recs[b:b + batch], NODES5, sup, sync, rstep, 'c18-c', objs=objs[b:b + batch])
+        witnessed |= LAST_JUDGE['witnessed']
         total['dev'] += sum(1 for f in fnd if f['dev'])
         total['rej'] += LAST_JUDGE['unexplained']
         if total['rej'] >= MAX_DIAG and b + batch < len(recs):
@@ -817,6 +854,13 @@ def stage_c(ctx):
             fnd = judge(ctx, precs[b:b + 4 * batch], NODES5 + ['a'], sup, sync, rstep, 'c18-c-peer', objs=pobjs[b:b + 4 * batch])
             total['dev'] += sum(1 for f in fnd if f['dev'])
             total['rej'] += LAST_JUDGE['unexplained']
+    ctx.extra['C_witnessed'] = sorted(witnessed)
+    need = [x for x in DUP_WITNESSES + AGAIN_WITNESSES if x not in witnessed]
+    if need and not total['rej'] and not total['dev'] and n >= 60:
+        # (an execution is judged up to its first rejected event only: no vacuity verdict on a tree that is rejected)
+        raise tlc.MachineryError('vacuous: the random histories never had a step of kind %s' % need)
+    ctx.note('C: kinds of steps (Svs!Witnesses) not seen in the recorded executions: %s' % (
+        sorted(set(WITNESSES) - witnessed) or 'none'))
     ctx.extra['C_loopback'] = {'peers': len(precs), 'interests_fed_back': sum(len(r['ev']) for r in precs)}
     ctx.traces += len(recs) + len(precs)
     ctx.evaluations += sum(len(r['ev']) for r in recs) + sum(len(r['ev']) for r in precs)
@@ -839,7 +883,9 @@ def run(ctx):
     ctx.assumptions = ['appv2 delivers a validated sync Interest to the attached handler (C04/C05)',
                        'virtual-time loop is faithful to asyncio timer semantics; a packet and an expiry at the same '
                        'instant are ordered packet-first or expiry-first, never inside one loop iteration',
-                       'node ids within one received vector are distinct',
+                       'a received vector that names a node more than once: it over-claims if any entry for the own '
+                       'node does; otherwise C18 does not fix which of the contradicting entries counts (any one entry '
+                       'per node, the same for local_sv and the suppression aggregate), nor whether it is taken at all',
                        'no stop()/start() of an instance and no send failure (face down) during a history: outside the '
                        'quantifier of C18 (audit S9, S10: proposed_fixes/C18-stop-cancels-timer-task.diff, '
                        'C18-send-failure-keeps-timer-running.diff)']
